@@ -534,6 +534,66 @@ def run(ctx):
             ctx.violation("R15.4", "ImagePart._native_size", "native width depends on %s and height on %s; expected (horizontal dpi, pixel width) and "
                           "(vertical dpi, pixel height): an image with different horizontal and vertical resolution gets the wrong aspect ratio"
                           % (sorted(w), sorted(h)), file=ns.file, line=ns.line)
+    # scaling with one dimension given: the other follows from the *native* aspect ratio (pixels over resolution, per axis), not from
+    # the pixel counts alone
+    sc = prog.lookup(prog.cls("pptx.parts.image", "ImagePart"), "scale")
+    if sc is None:
+        raise AnalysisError("anchor vanished: ImagePart.scale")
+    from sa.inline import expand as _exp15s
+
+    scx = _exp15s(prog, sc, local_only=True, skip_names=("_native_size", "_px_size", "_dpi"))
+    SRC = {"self._native_size": "native", "self._px_size": "px", "self._dpi": "dpi"}
+    env_s = {}
+
+    def sdeps(e):
+        if isinstance(e, ast.Name):
+            return set(env_s.get(e.id, set()))
+        txt = ast.unparse(e)
+        if txt in SRC:
+            return {(SRC[txt], 0), (SRC[txt], 1)}
+        if isinstance(e, ast.Subscript) and ast.unparse(e.value) in SRC and isinstance(e.slice, ast.Constant):
+            return {(SRC[ast.unparse(e.value)], e.slice.value)}
+        out = set()
+        for c_ in ast.iter_child_nodes(e):
+            if isinstance(c_, ast.expr):
+                out |= sdeps(c_)
+        return out
+
+    for _round in range(3):   # flow-insensitive closure over the assignments (names may be bound in any arm)
+        for st in ast.walk(scx):
+            if isinstance(st, ast.Assign) and len(st.targets) == 1:
+                t, v = st.targets[0], st.value
+                if isinstance(t, ast.Tuple) and ast.unparse(v) in SRC:
+                    for i_, te in enumerate(t.elts):
+                        if isinstance(te, ast.Name):
+                            env_s.setdefault(te.id, set()).add((SRC[ast.unparse(v)], i_))
+                elif isinstance(t, ast.Tuple) and isinstance(v, ast.Tuple) and len(t.elts) == len(v.elts):
+                    for te, ve in zip(t.elts, v.elts):
+                        if isinstance(te, ast.Name):
+                            env_s.setdefault(te.id, set()).update(sdeps(ve))
+                elif isinstance(t, ast.Name):
+                    env_s.setdefault(t.id, set()).update(sdeps(v))
+    used, kinds, bad_px = set(), set(), False
+    for r_ in [x for x in ast.walk(scx) if isinstance(x, ast.Return) and x.value is not None]:
+        # each returned dimension that is computed (not a parameter handed back, not the native size as a whole)
+        elts_ = r_.value.elts if isinstance(r_.value, ast.Tuple) else [r_.value]
+        for e_ in elts_:
+            d_ = sdeps(e_)
+            if not d_:
+                continue
+            used |= d_
+            k_ = {k for k, _ in d_}
+            kinds |= k_
+            if k_ == {"px"}:
+                bad_px = True
+    if not bad_px and ("native" in kinds or {"px", "dpi"} <= kinds):
+        ctx.ok("R15.4", "ImagePart.scale", sample={"missing_dimension_from": sorted(kinds)})
+    elif bad_px:
+        ctx.violation("R15.4", "ImagePart.scale", "the missing dimension is derived from the pixel counts alone (%s): for an image whose horizontal and "
+                      "vertical resolution differ the native size honours both, but a picture given only its width (or height) gets the aspect "
+                      "ratio of the pixel grid" % sorted(used), file=sc.file, line=sc.line)
+    else:
+        ctx.error("ImagePart.scale", "what the scaled size is derived from was not traced (%s)" % sorted(used))
     # Image.dpi: component k of the normalised dpi comes from component k of Pillow's dpi
     dp = img.methods.get("dpi")
     if dp is None:
